@@ -114,11 +114,15 @@ def run(coro_fn, *a, timeout=120, **kw):
         return loop.run_until_complete(coro_fn(*a, **kw))
     finally:
         try:
-            pend = [t for t in asyncio.all_tasks(loop) if not t.done()]
-            for t in pend:
-                t.cancel()
-            if pend:
-                loop.run_until_complete(asyncio.gather(*pend, return_exceptions=True))
+            # cancel what is left; a task that swallows its cancellation and blocks again (e.g. on a full queue) must
+            # not hang the harness: give up on it after a few rounds
+            for _ in range(3):
+                pend = [t for t in asyncio.all_tasks(loop) if not t.done()]
+                if not pend:
+                    break
+                for t in pend:
+                    t.cancel()
+                loop.run_until_complete(asyncio.wait(pend, timeout=0.3))
             Periodic._running_tasks.clear()
             Periodic._pending_tasks.clear()
         finally:
@@ -462,6 +466,7 @@ class Conn:
         self.out = []  # raw strings passed to ws_send
         self.closed = None
         self.in_recv = False
+        self.send_turns = 0
         self.n_fed = 0     # messages queued by the harness
         self.n_taken = 0   # messages handed to the handler
         self.n_done = 0    # messages the handler has finished with (it asked for the next one)
@@ -479,6 +484,10 @@ class Conn:
     async def _send(self, m):
         if self.disconnected:
             raise falcon.WebSocketDisconnected()
+        for _ in range(self.send_turns):  # a slow reader: each frame takes some event-loop turns to go out
+            await asyncio.sleep(0)
+            if self.disconnected:
+                raise falcon.WebSocketDisconnected()
         self.out.append(m)
 
     async def _recv(self):
@@ -616,8 +625,10 @@ async def settle(rig, pump=True, budget=20000):
             if name == "sleep" and fn.endswith("tasks.py"):
                 sleeping = True
                 continue
-            if name == "acquire" and fn.endswith("locks.py"):
-                lockwait.append(chain)  # waiting for a semaphore/lock somebody else must release
+            if (name == "acquire" and fn.endswith("locks.py")) or (name == "put" and fn.endswith("queues.py")):
+                # waiting for a semaphore/lock somebody else must release, or for room in a bounded queue somebody
+                # else must drain: if nothing else can run any more this wait never ends
+                lockwait.append(chain)
                 continue
             busy = True
         if busy or loop._ready:
